@@ -17,6 +17,8 @@ encrypt / decrypt(..., at_round, after_step) of the real code under the true key
 Object-reuse histories (aes_sf_reuse / des_sf_reuse): 2..4 steps on ONE selection function object, each step a call and a
 compute_expected_key in either order with its own key (AES key sizes mixed, the key ndarray mutated in place), data and number of
 traces; the model is history-free, so every step is compared exactly as a fresh object would be.
+Count boundaries (aes_sf_counts / des_sf_counts): one call on 255 .. 4097 traces made of a few distinct rows (run-length encoded,
+expanded inside Coq); sample of entries + first / last trace in Coq, the whole array against the validated per-row planes in Python.
 """
 import numpy as np
 
@@ -1052,5 +1054,196 @@ class DesReuseKind(_ReuseKind):
         r, s = DES_STOPS[name]
         return np.asarray(cipher(inp, key, at_round=r, after_step=s, at_des=0)).reshape(inp.shape[0], 8).tolist()
 
+# ------------------------------------------------------------------------------------------------ count boundaries
+BIG_COUNTS = (255, 256, 257, 1023, 1024, 1025, 1100, 2048, 4097)
 
-KINDS = [AesSfKind(), DesSfKind(), WordsKind(), AesReuseKind(), DesReuseKind()]
+
+class _BigKind(Kind):
+    """One call on a batch of VERY MANY traces (at and around 256 / 1024, 1100, 2048, 4097) made of a handful of distinct rows given run-length
+    encoded.  Coq receives the distinct rows (base case: its observation = the planes of the big result at the first occurrence of each
+    distinct row, checked like any single call), the runs, the shape of the big result, a sample of (trace, guess, word) entries and every
+    guess column of the first and the last trace; the expected big array is the per-row planes expanded along the runs
+    (theorem batches_of_repeated_rows).  Python then checks the WHOLE array: every trace equals, by exact integer equality, the plane of
+    its distinct row that Coq validated."""
+    header = HDR
+    shard = 4
+    reuse = None            # the reuse kind whose stop-point oracle is borrowed
+    nw, top = 16, 256
+
+    def gen(self, rng, tier):
+        k = rng.randrange(len(BIG_COUNTS))
+        reps = 1 if tier == 'quick' else 4
+        for rep in range(reps):
+            for ns in ('encrypt', 'decrypt'):
+                for name in self.classes[ns]:
+                    yield self._big(rng, ns, name, k)
+                    k += 1
+
+    def _big(self, rng, ns, name, k):
+        T = BIG_COUNTS[k % len(BIG_COUNTS)]
+        d = 2 + k % 3
+        words = self._words(k)
+        base = self.base._case(rng, ns, name, self._klen(k), k, T=d, words=words, guesses=self._guess_mode(k, T), which=3)
+        base['custom_tag'] = False
+        base['precall'] = False
+        # runs: a partition of T into 3..7 runs over the d rows; the first and the last run use different rows
+        nruns = max(3 + k % 5, d)
+        if (nruns - 1) % d == 0:
+            nruns += 1
+        idx = [i % d for i in range(nruns)]         # every distinct row is used; first run row 0, last run another row
+        cuts = sorted(rng.sample(range(1, T), nruns - 1))
+        lens = [b - a for a, b in zip([0] + cuts, cuts + [T])]
+        return dict(base, runs=[[i, n] for i, n in zip(idx, lens)], nsamples=40, sample_seed=rng.randrange(1 << 30))
+
+    def run(self, case):
+        import random
+        from scared.selection_functions.base import SelectionFunctionError
+        ns, name = case['ns'], case['name']
+        mod, cipher, width = self.reuse._env(ns)
+        src = self.classes[ns][name]
+        tag = spec_tag(ns, src)
+        rows = np.array(case['inp'], dtype='uint8')
+        key = np.array(case['key'], dtype='uint8')
+        row_of = np.concatenate([np.full(n, i, dtype=np.int64) for i, n in case['runs']])
+        first_at = [int(np.argmax(row_of == i)) for i in range(len(case['inp']))]
+        inp = rows[row_of]
+        T = inp.shape[0]
+        out = cipher(inp, key).reshape(T, width)
+        pt, ct = (inp, out) if ns == 'encrypt' else (out, inp)
+        kw = {}
+        if case['guesses'] is not None:
+            kw['guesses'] = py_guesses(case)
+        if case['words']['form'] != 'none':
+            kw['words'] = py_words(case['words'])
+        meta = {'plaintext': pt.astype(case['dtype']), 'ciphertext': ct.astype(case['dtype']), 'key': key}
+        before = {n: a.copy() for n, a in meta.items()}
+        sf = getattr(mod, name)(**kw)
+        res = sf(**meta)
+        ek = sf.compute_expected_key(**meta)
+        small = res[first_at]
+        obs = {'out': out[first_at].tolist(), 'shape': [int(x) for x in small.shape], 'values': _flat(small), 'dtype': str(res.dtype),
+               'expkey': _flat(ek) if ek is not None and ek.shape == (self.nw,) else [],
+               'unchanged': bool(all((a == before[n]).all() for n, a in meta.items())),
+               'oracle': self.reuse._oracle_rows(ns, name, src, rows, key, np.asarray(cipher(rows, key)).reshape(len(first_at), width)),
+               'default_guesses': sf.guesses.tolist() if case['guesses'] is None else None,
+               'big_shape': [int(x) for x in res.shape]}
+        # the whole array against the planes of the distinct rows (exact integer equality, numpy)
+        same = (res == small[row_of]) if res.shape[0] == T else None
+        if same is None:
+            obs['whole'] = f'first dimension {res.shape[0]} for {T} traces'
+        elif not same.all():
+            bad = np.argwhere(~same)[0].tolist()
+            obs['whole'] = (f'entry {bad} of the result for {T} traces differs from the same entry of trace {first_at[int(row_of[bad[0]])]}, '
+                            f'which has the same data row ({int(res[tuple(bad)])} vs {int(small[int(row_of[bad[0]])][tuple(bad[1:])])})')
+        # exported part of the big result: a sample of entries, the first and the last trace
+        r = random.Random(case['sample_seed'])
+        nG = res.shape[1] if res.ndim > 1 else 1
+        nW = res.shape[2] if res.ndim > 2 else 1
+        samples = []
+        for _ in range(case['nsamples']):
+            t, j, w = r.randrange(res.shape[0]), r.randrange(max(nG, 1)), r.randrange(max(nW, 1))
+            if res.ndim == 3 and nW and nG:
+                samples.append([t, j, w, int(res[t, j, w])])
+            elif res.ndim == 2 and nG:
+                samples.append([t, j, 0, int(res[t, j])])
+        obs['samples'] = samples
+        obs['traces'] = [[t, _flat(res[t])] for t in (0, res.shape[0] - 1)]
+        return obs
+
+    def coq(self, case, obs):
+        b = ('{| bo_runs := %s; bo_shape := %s; bo_samples := %s; bo_traces := %s |}' % (
+            C.coq_list(case['runs'], lambda r: f'({r[0]}, {r[1]})%nat'), C.coq_list(obs.get('big_shape', []), C.coq_nat),
+            C.coq_list(obs.get('samples', []), lambda x: f'({x[0]}%nat, {x[1]}%nat, {x[2]}%nat, {x[3]}%N)'),
+            C.coq_list(obs.get('traces', []), lambda x: f'({x[0]}%nat, {_nl(x[1])})')))
+        return '{| %s := %s; %s := %s |}' % (self.fields[0], self.base.coq(case, obs), self.fields[1], b)
+
+    def oracle(self, case, obs):
+        what = f'{case["ns"]}.{case["name"]} on {sum(n for _, n in case["runs"])} traces'
+        if 'raised' in obs:
+            return f'{what} raised {obs["raised"]}: {obs["msg"]}'
+        if obs.get('whole'):
+            return f'{what}: {obs["whole"]}'
+        r = sf_oracle(case, obs, self.nw, self.top)
+        return f'{what} (planes of the distinct rows): {r}' if r else None
+
+    def nontrivial(self, case, obs):
+        return 'shape' in obs
+
+    def features(self, case, obs):
+        return {'class': case['ns'] + '.' + case['name'], 'traces': sum(n for _, n in case['runs']), 'distinct_rows': len(case['inp']),
+                'guesses': 'default' if case['guesses'] is None else len(case['guesses']), 'words': case['words']['form']}
+
+    def tags(self, case, obs):
+        return [self.name, case['ns'] + '.' + case['name']]
+
+    def sample(self, case, obs):
+        return {'case': {k: v for k, v in case.items() if k != 'inp'}, 'observed': {'big_shape': obs.get('big_shape'), 'samples': obs.get('samples', [])[:4]}}
+
+    def shrink(self, case):
+        # fewer runs / shorter runs keep the case meaningful only while the count stays large: halve the longest run
+        runs = case['runs']
+        i = max(range(len(runs)), key=lambda j: runs[j][1])
+        if runs[i][1] > 1:
+            yield dict(case, runs=[[a, (n + 1) // 2 if j == i else n] for j, (a, n) in enumerate(runs)])
+
+
+class AesBigKind(_BigKind):
+    name = 'aes_sf_counts'
+    case_type = 'aes_big_case'
+    check_fn = 'aes_big_check'
+    corr_fn = 'aes_big_corr'
+    classes = AES_CLASSES
+    fields = ('ab_base', 'ab_big')
+    nw, top = 16, 256
+    rule = ('count boundaries, every public AES class: one call on 255/256/257/1023/1024/1025/1100/2048/4097 traces made of 2..4 distinct rows '
+            '(run-length encoded, expanded inside Coq), guess subsets of 3..40 guesses or the default 256 with an int word; non-trivial = always')
+
+    def __init__(self):
+        self.base = AesSfKind()
+        self.reuse = AesReuseKind()
+
+    def _klen(self, k):
+        return (16, 24, 32)[k % 3]
+
+    def _words(self, k):
+        return [{'form': 'int', 'val': k % 16}, {'form': 'slice', 'val': [k % 5, None, 6]}, {'form': 'list', 'val': [(k + 3) % 16, k % 16]}, {'form': 'none'}][k % 4]
+
+    def _guess_mode(self, k, T):
+        return 'default' if k % 4 == 0 else 'pick'
+
+    def _big(self, rng, ns, name, k):
+        c = super()._big(rng, ns, name, k)
+        if c['guesses'] is not None and k % 2:
+            # a larger subset (the result stays small in Coq: only samples and two traces are exported)
+            extra = [g for g in range((7 * k) % 256, (7 * k) % 256 + 40) if g < 256 and g not in c['guesses']]
+            c['guesses'] = c['guesses'] + extra
+            c['guess_form'] = 'array'
+        return c
+
+
+class DesBigKind(_BigKind):
+    name = 'des_sf_counts'
+    case_type = 'des_big_case'
+    check_fn = 'des_big_check'
+    corr_fn = 'des_big_corr'
+    classes = DES_CLASSES
+    fields = ('db_base', 'db_big')
+    nw, top = 8, 64
+    rule = ('count boundaries, every public DES class: one call on 255/256/257/1023/1024/1025/1100/2048/4097 traces made of 2..4 distinct rows, '
+            'the default 64 guesses (three cases out of four) or a subset; non-trivial = always')
+
+    def __init__(self):
+        self.base = DesSfKind()
+        self.reuse = DesReuseKind()
+
+    def _klen(self, k):
+        return 8
+
+    def _words(self, k):
+        return [{'form': 'none'}, {'form': 'int', 'val': k % 8}, {'form': 'slice', 'val': [k % 3, None, 3]}, {'form': 'list', 'val': [(k + 3) % 8, k % 8]}][k % 4]
+
+    def _guess_mode(self, k, T):
+        return 'pick' if k % 4 == 3 else 'default'
+
+
+KINDS = [AesSfKind(), DesSfKind(), WordsKind(), AesReuseKind(), DesReuseKind(), AesBigKind(), DesBigKind()]
